@@ -120,7 +120,7 @@ PROPS = {
     },
     "C10": {
         "modules": ["PgBifrost.Props.C10"],
-        "components": ["marshal", "plumbing"],
+        "components": ["marshal", "plumbing", "parser"],
         "required_theorems": ["PgBifrost.Props.C10.marshal_decision_table_partial", "PgBifrost.Props.C10.marshal_quoted_toast_witness",
                               "PgBifrost.Props.C10.marshal_fields_equal", "PgBifrost.Props.C10.lsn_format_roundtrip",
                               "PgBifrost.Props.C10.marshal_history_independent", "PgBifrost.Props.C10.marshal_pool_independent",
@@ -230,7 +230,7 @@ PROPS = {
     },
     "C19": {
         "modules": ["PgBifrost.Props.C19"],
-        "components": ["aggregator"],
+        "components": ["aggregator", "plumbing"],
         "required_theorems": ["PgBifrost.Props.C19.agg_conservation", "PgBifrost.Props.C19.agg_exactly_one_window",
                               "PgBifrost.Props.C19.agg_hist_minmaxavg", "PgBifrost.Props.C19.agg_key_inj_table",
                               "PgBifrost.Props.C19.agg_key_collision_witness", "PgBifrost.Props.C19.aggregate_as_in_source", "PgBifrost.Props.C19.aggregator_steps_as_in_source"],
